@@ -115,11 +115,12 @@ def mk_opt(none, v):
 class Atom:
     """an opaque string piece: a formatted parameter or a user supplied name"""
 
-    __slots__ = ("name", "kind")
+    __slots__ = ("name", "kind", "term")
 
-    def __init__(self, name, kind="str"):
+    def __init__(self, name, kind="str", term=None):
         self.name = name
         self.kind = kind  # 'int' (decimal digits), 'str' (dot-free name)
+        self.term = term  # for kind 'int': the integer term that was formatted (L5: int(str(k)) == k)
 
     def __repr__(self):
         return "{" + self.name + "}"
